@@ -2,13 +2,13 @@
 """Print markdown tables of the self-validation results (selftest/results.json, seeded/*/meta.json)."""
 import glob, json, os
 ROOT = os.path.dirname(os.path.dirname(os.path.abspath(__file__)))
-print("| Seeded change | Property | Breaks it by | Needs to manifest | Caught by (signatures) |")
+print("| Seeded change | Property | Breaks it by | Strengthening it triggered | Caught by (signatures) |")
 print("|---|---|---|---|---|")
 for d in sorted(x for x in glob.glob(os.path.join(ROOT, "seeded", "*")) if os.path.isdir(x)):
     m = json.load(open(os.path.join(d, "meta.json")))
     notes = m.get("needs_to_manifest", "").replace("\n", " ").replace("|", "/")
     caught = "; ".join(f"{c}: {', '.join(v['sigs'][:3])}" for c, v in m.get("checks", {}).items() if v["exit"] == 1) or "MISSED"
-    print(f"| `{os.path.basename(d)}` | {m['property']} | {notes[:160]} | see notes.md | {caught} |")
+    print(f"| `{os.path.basename(d)}` | {m['property']} | {notes[:160]} | {m.get('strengthening', '-')} | {caught} |")
 print()
 res = json.load(open(os.path.join(ROOT, "selftest", "results.json")))
 print("| Catalogue entry | Expected | Status | Signatures |")
@@ -16,3 +16,12 @@ print("|---|---|---|---|")
 for r in res:
     sigs = "; ".join(f"{c}: {', '.join(v['sigs'][:2])}" for c, v in r.get("checks", {}).items() if v["exit"] == 1)
     print(f"| `{r['name']}` | {', '.join(r['props'])} | {r.get('status')} | {sigs} |")
+
+rev = os.path.join(ROOT, "selftest", "reverts.json")
+if os.path.exists(rev):
+    print()
+    print("| Fix commit reverted | Properties | Status | Signatures |")
+    print("|---|---|---|---|")
+    for c, r in json.load(open(rev)).items():
+        sigs = "; ".join(f"{k}: {', '.join(v['sigs'][:2])}" for k, v in r.get("checks", {}).items() if v["exit"] == 1)
+        print(f"| `{c}` {r['subject'][:70]} | {', '.join(r['props'])} | {r.get('note') or r.get('status')} | {sigs} |")
